@@ -190,6 +190,27 @@ func (w *skWalker) nsrc(n ast.Node) string {
 		name string
 	}
 	var undo []saved
+	// WHAT is sent is data (the correspondence stages compare it), not protocol: the arguments of the two sending
+	// calls are written "…", so that computing the value elsewhere (a helper, a local) does not change the text
+	type savedArgs struct {
+		call *ast.CallExpr
+		args []ast.Expr
+	}
+	var undoArgs []savedArgs
+	ast.Inspect(n, func(x ast.Node) bool {
+		if call, ok := x.(*ast.CallExpr); ok {
+			if sel, ok := call.Fun.(*ast.SelectorExpr); ok && (sel.Sel.Name == "sendEvent" || sel.Sel.Name == "sendError") && len(call.Args) == 1 {
+				undoArgs = append(undoArgs, savedArgs{call, call.Args})
+				call.Args = []ast.Expr{&ast.Ident{Name: "…"}}
+			}
+		}
+		return true
+	})
+	defer func() {
+		for _, u := range undoArgs {
+			u.call.Args = u.args
+		}
+	}()
 	var stack []ast.Node
 	ast.Inspect(n, func(x ast.Node) bool {
 		if x == nil {
